@@ -365,7 +365,7 @@ CYCLE_CLASS = "findall-cyclic-goal-branch-ignores-recursive-call"
 
 def run_machinery(ctx):
     n = ctx.n(150, 3000)
-    progs = [cf.gen_rich_program(ctx.rng) for _ in range(n)]
+    progs = [cf.gen_relational_program(ctx.rng) if ctx.rng.random() < 0.35 else cf.gen_rich_program(ctx.rng) for _ in range(n)]
     caps = pl.pmap(_capture, [p[0] for p in progs], jobs=8)
     cases, metas, defs = [], [], []
     for (src, kind), (st, err, calls) in zip(progs, caps):
@@ -431,7 +431,8 @@ def run(ctx):
                        "non-trivial = >=2 distinct node ids and at least one deterministic or repeated element; "
                        "(b) random propositional programs with findall/3 or all/3 over a predicate with 1-5 ordered clauses over 1-4 probabilistic facts: "
                        "non-trivial = >=3 distinct result lists with non-zero probability; "
-                       "(c) random acyclic propositional programs (facts, optional AD and deterministic fact, intermediate predicates with negation, p/1 with 1-4 clauses) "
+                       "(c) random acyclic programs, 65% propositional (facts, optional AD and deterministic fact, intermediate predicates with negation, p/1 with 1-4 clauses), "
+                       "35% relational (probabilistic/deterministic edges of a DAG, two-step path predicate, compound templates, one call per binding of an outer variable) "
                        "under findall/3, all/3, all_or_none/3: every recorded builtin call is compared with ModelBranches and judged by exhaustive assignments: "
                        "non-trivial = >=3 proofs and >=3 output lists")
     ctx.assumptions += ["hand model of _select_sublist tied by sampled differential runs",
@@ -443,3 +444,10 @@ def run(ctx):
     run_select_sublist(ctx)
     run_machinery(ctx)
     run_programs(ctx)
+    # Findings.v (not in the cone of Props.v): model-level witness of the cyclic-goal defect
+    try:
+        rc, out = vf.sh(["coqc"] + vf.COQFLAGS + ["-w", "none", "theories/C19/Findings.v"], cwd=vf.COQ, timeout=300)
+        ctx.cov["findings_files"] = {"C19/Findings.v": "compiles (C19_cycle_guard_refuted: the cycle guard's empty branch is not a proof)" if rc == 0
+                                     else "does NOT compile: " + out[-400:]}
+    except Exception as e:  # noqa
+        ctx.cov["findings_files"] = {"C19/Findings.v": "not built: %s" % str(e)[:200]}
